@@ -422,7 +422,7 @@ def finish(ctx, level, coverage, assumptions):
         log("  signature: %s" % v["sig"])
         log("  %s" % v["what"][:600])
         nprinted += 1
-        if nprinted >= 12:
+        if nprinted >= 40:
             log("  ... (%d further distinct signatures not listed)" % (len({x['sig'] for x in new}) - nprinted))
             break
     cov = dict(coverage)
